@@ -574,6 +574,97 @@ def _pathdiff(a, b):
             "reordered": sorted(a) == sorted(b) and a != b}
 
 
+# ------------------------------------- (iii-b) own model / residual kept
+
+OWN_MODEL_SRC = '''
+
+def model(params, delta):
+    """the module's own modelling function (marker: + 7e-9)"""
+    return model_func(delta, **params.valuesdict()) + 7e-9
+'''
+
+OWN_RESIDUAL_SRC = '''
+
+def residual(params, delta, force, weight_cp=5e-7):
+    """the module's own residual function (marker: x 3)"""
+    return 3 * (force - model_func(delta, **params.valuesdict()))
+'''
+
+
+def own_wrappers_part(rep, tmp):
+    """default residual/model wrappers are provided for what a module does
+    not define itself - and only for that"""
+    from nanite.model import logic
+    n = 0
+    for own_model in (False, True):
+        for own_res in (False, True):
+            for entry in ("register_model", "load_model_from_file"):
+                with Registry():
+                    key = f"vk_own{int(own_model)}{int(own_res)}"
+                    _, src = make_module(key, 1.0)
+                    if own_model:
+                        src += OWN_MODEL_SRC
+                    if own_res:
+                        src += OWN_RESIDUAL_SRC
+                    case = {"kind": "own", "own_model": own_model,
+                            "own_residual": own_res, "entry": entry}
+                    wit = f"model={own_model},residual={own_res}"
+                    n += 1
+                    try:
+                        if entry == "register_model":
+                            mod = types.ModuleType("verif_mod_" + key)
+                            exec(compile(src, mod.__name__, "exec"),
+                                 mod.__dict__)
+                            md = logic.register_model(mod)
+                        else:
+                            pth = os.path.join(tmp, f"vmodel_{key}.py")
+                            open(pth, "w").write(src)
+                            md = logic.load_model_from_file(pth,
+                                                            register=True)
+                        md = logic.models_available[key]
+                        P = md.get_parameter_defaults()
+                        P["contact_point"].set(value=1e-7)
+                        x = np.linspace(1e-6, -1e-6, 40)
+                        y = np.linspace(0, 1e-9, 40)
+                        base = md.module.model_func(x, **P.valuesdict())
+                        em = base + (7e-9 if own_model else 0.0)
+                        gm = md.model(P, x)
+                        w = 5e-7
+                        wt = np.minimum(1.0, np.abs(x - 1e-7) / w)
+                        er = 3 * (y - base) if own_res else \
+                            (y - (em if False else base)) * wt
+                        if own_res is False and own_model:
+                            # documented default: residuals of model_func
+                            er = (y - base) * wt
+                        gr = md.residual(P, x, y, w)
+                        if not np.allclose(gm, em, rtol=1e-12, atol=0):
+                            rep.violate(V(
+                                PROP, "defaults", site="own-model",
+                                witness=wit + ":" + entry, detail="the "
+                                "registered model's `model` is not the "
+                                + ("function the module defines"
+                                   if own_model else "default wrapper"),
+                                case=case, kind="own"))
+                        if not np.allclose(gr, er, rtol=1e-12, atol=1e-30):
+                            rep.violate(V(
+                                PROP, "defaults", site="own-residual",
+                                witness=wit + ":" + entry, detail="the "
+                                "registered model's `residual` is not the "
+                                + ("function the module defines"
+                                   if own_res else "default wrapper"),
+                                case=case, kind="own"))
+                    except BaseException as e:
+                        if isinstance(e, (KeyboardInterrupt, SystemExit)):
+                            raise
+                        rep.violate(V(PROP, "defaults", site="own-wrappers",
+                                      witness=wit + ":" + entry,
+                                      detail=f"raises {e!r}", case=case,
+                                      kind="own"))
+    rep.add("transitions", n)
+    rep.add("traces_validated_against_impl", n)
+    rep.set("own_wrapper_cases", n)
+
+
 # ----------------------------------------------------- (iv) ancillaries
 
 def ancillary_part(rep):
@@ -646,6 +737,8 @@ def _run_parts(rep, only=None):
                 mutant_part(rep)
             if only in (None, "loader"):
                 loader_part(rep, tmp)
+            if only in (None, "own"):
+                own_wrappers_part(rep, tmp)
             if only in (None, "anc"):
                 ancillary_part(rep)
     finally:
